@@ -87,7 +87,11 @@ class ThreadWorker(Worker):
         if not self.is_alive():
             return True
 
-        foreign_raise(self._ident, WorkerTerminatedError)
+        try:
+            foreign_raise(self._ident, WorkerTerminatedError)
+        except ValueError:
+            # the thread has finished between the is_alive() check and now
+            pass
         self._release_child()
         self._child.join(timeout)
         if self._child.is_alive():
